@@ -253,6 +253,8 @@ def rule_r8(chk, p, t):
 
     C04.rule_r4(chk, p, t, rid="C11.R8")
     C04.rule_r5(chk, p, t, rid="C11.R9")
+    # ... whose argument is (year, day of year): the calendar tables behind dayOfYear (shared instance of C04.R6)
+    C04.rule_r6(chk, p, t, rid="C11.R10")
 
 
 def run(chk, p, t):
